@@ -345,6 +345,67 @@ def run(rep: Report, prog: Program, tier: str) -> None:
                 rep.fail(mk_finding(prog, PROP, "C16-SINGLE", hp, hp.node, f"a single NAL unit packet of type {typ} (NRI {nri}) depacketises to {got if isinstance(got, str) else (got.hex() if got else got)}; "
                                     f"the unit itself was expected", construct=f"single NAL type {typ}"))
 
+    # ---- C16-SEQ: the whole H.264 packetiser over sequences of NAL unit sizes around every budget boundary
+    rep.rule("C16-SEQ", "H264Encoder._packetize over NAL size sequences: payloads <= 1300 bytes, depacketised concatenation == bitstream", min_instances=100)
+    pk = prog.func("codecs.h264.H264Encoder._packetize")
+    enc_cls = prog.cls("codecs.h264.H264Encoder")
+    from .objhook import ClassRef as _CR, make_hook as _mkh
+
+    def seq_extra(call: ast.Call, ev: Evaluator) -> Any:
+        name = unparse(call.func)
+        if name == "iter" and len(call.args) == 1:
+            return iter(list(ev.ev(call.args[0])))
+        if name == "next" and call.args:
+            it = ev.ev(call.args[0])
+            try:
+                return next(it)
+            except StopIteration:
+                if len(call.args) > 1:
+                    return ev.ev(call.args[1])
+                raise Raised("StopIteration", call)
+        if name == "math.ceil":
+            import math
+            return math.ceil(ev.ev(call.args[0]))
+        if name == "bytes" and not call.args:
+            return b""
+        return NotImplemented
+    sh = _mkh(prog, seq_extra)
+    pmax = prog.const(h264, "PACKET_MAX")
+    base_sizes = [2, 3, 100, 646, 647, 648, 649, 650, 1296, 1297, 1298, 1299, 1300, 1301, 1302, 2598, 2599, 2600]
+    seqs: List[Tuple[int, ...]] = [(a,) for a in base_sizes] + [(a, b) for a in base_sizes for b in (2, 100, 646, 647, 648, 649, 1297, 1298, 1301)]
+    seqs += [(400, 400, 492), (400, 400, 493), (400, 400, 494), (2, 2, 2, 2, 2, 2, 2, 2, 2, 2, 2), (100,) * 12, (2, 1301, 2), (1301, 2, 2), (646, 646, 646)]
+    if tier == "thorough":
+        seqs += [(a, b, c) for a in (2, 430, 431, 432, 649, 1301) for b in (2, 430, 431, 432, 646) for c in (2, 429, 430, 431, 432, 433, 1298)]
+
+    def mknal(n: int, k: int) -> bytes:
+        typ = (1, 5, 7, 8, 23)[k % 5]
+        return bytes([((k % 4) << 5) | typ]) + bytes(((i * 13 + k) % 255) + 1 for i in range(n - 1))
+    for sizes in seqs:
+        nalus = [mknal(n, k) for k, n in enumerate(sizes)]
+        label = f"NAL sizes {sizes if len(sizes) <= 6 else str(sizes[:3])[:-1] + ', ...) x' + str(len(sizes))}"
+        try:
+            payloads = sh.run_method(pk, _CR(enc_cls), [list(nalus)], {})
+            out = b""
+            for raw in payloads:
+                res = h_parse(raw)
+                out += res[1]
+        except Raised as r:
+            rep.fail(mk_finding(prog, PROP, "C16-SEQ", pk, getattr(r, "node", None) or pk.node, f"[{label}] packetising / depacketising raises {r.name}", construct=f"h264 sequence raises {r.name}"))
+            continue
+        except Unknown as u:
+            raise AnalysisError(f"C16-SEQ: cannot evaluate [{label}]: {u}")
+        problems = []
+        big = [len(x) for x in payloads if len(x) > pmax]
+        if big:
+            problems.append(f"payload(s) of {big} bytes exceed {pmax}")
+        want = b"".join(b"\x00\x00\x00\x01" + n for n in nalus)
+        if out != want:
+            problems.append(f"depacketised stream differs from the NAL units sent ({len(out)} vs {len(want)} bytes)")
+        if problems:
+            rep.fail(mk_finding(prog, PROP, "C16-SEQ", pk, pk.node, f"[{label}] " + "; ".join(problems), construct="h264 sequence: " + problems[0].split(" of ")[0][:40]))
+        else:
+            rep.ok("C16-SEQ", label, sample=f"{len(payloads)} payload(s) of {[len(x) for x in payloads][:6]} bytes")
+
     # ---- C16-DISPATCH
     rep.rule("C16-DISPATCH", "depayload dispatch", min_instances=2)
     dp = prog.func("codecs.depayload")
